@@ -557,4 +557,22 @@ theorem sysGood_run (sch : Curve Priv Pub Addr) (ops : List (Op Addr)) :
 theorem sysGood_init (sch : Curve Priv Pub Addr) (fuel : Nat) :
     SysGood sch.toScheme ({ fuel := fuel } : Sys Priv Pub Addr) := fun e he => nomatch he
 
+theorem findMgr_some (ks : KS Priv Pub Addr) (a : Addr) (id : String) (ma : MAddr Pub Addr)
+    (h : findMgr ks a = some (id, ma)) : ∃ m, (id, m) ∈ ks.mgrs ∧ AMap.get m.addrs a = some ma := by
+  unfold findMgr at h
+  generalize ks.mgrs = l at h
+  induction l with
+  | nil => simp at h
+  | cons e l ih =>
+    rw [List.findSome?_cons] at h
+    cases hg : AMap.get e.2.addrs a with
+    | none =>
+      simp only [hg, Option.map_none] at h
+      obtain ⟨m, hm, hma⟩ := ih h
+      exact ⟨m, List.mem_cons_of_mem _ hm, hma⟩
+    | some ma' =>
+      simp only [hg, Option.map_some, Option.some.injEq, Prod.mk.injEq] at h
+      obtain ⟨rfl, rfl⟩ := h
+      exact ⟨e.2, List.mem_cons_self, hg⟩
+
 end MW.Lemmas.KsSys
